@@ -36,6 +36,17 @@ def belt_configs(tier, seed):
         C.append({"type": rng.choice(["conveyor", "slotted"]), "acc": rng.choice([0, 1]), "cap": rng.randint(1, 5),
                   "slot": rng.choice([1, 2, 3, 4, 8]), "Q": Q, "T": 400, "arrivals": a,
                   "service": [rng.choice([-1, -1, 0, 1, 2, 6, 15]) for _ in range(rng.randint(1, 4))], "pattern": "random"})
+    # a reservation that is granted, held and withdrawn while another request waits (FIRST_AVAILABLE nodes do this)
+    for typ, acc, (cap, slot) in itertools.product(["conveyor", "slotted"], [0, 1], [(3, 2), (4, 1), (2, 4)]):
+        L = cap * slot
+        arr = [i * slot for i in range(cap - 1)] + [L + 3 * slot]          # cap-1 items, then one more request later
+        for cancel_at in (L + 4 * slot, L + 6 * slot):
+            C.append({"type": typ, "acc": acc, "cap": cap, "slot": slot, "Q": Q, "T": 60 * slot + 200, "arrivals": arr,
+                      "service": [10 * L, 0, 0, 0], "pattern": "hold-and-cancel",
+                      "holders": [{"at": L + 2 * slot, "cancel": cancel_at}]})
+            C.append({"type": typ, "acc": acc, "cap": cap, "slot": slot, "Q": Q, "T": 60 * slot + 200, "arrivals": arr,
+                      "service": [-1], "pattern": "hold-and-cancel/free-flow",
+                      "holders": [{"at": L + 2 * slot, "cancel": cancel_at}]})
     # a few runs with several producers asking in the same instant (two workers of one machine)
     for typ, acc in itertools.product(["conveyor", "slotted"], [0, 1]):
         C.append({"type": typ, "acc": acc, "cap": 3, "slot": 2, "Q": Q, "T": 200, "arrivals": [0, 0, 9, 9, 9], "service": [-1],
@@ -169,7 +180,8 @@ def classify(tr, l, clause):
         exp = max(t_of.get(("enter", x), 0) + L, (t_of.get(("take", pred), -10 ** 6) + slot) if pred else -10 ** 6)
         return "late" if e["t"] > exp else "early"
     if clause == "T_C13_AdmitToCap":
-        return "late_admission"
+        prev = [y for y in ev[:l] if y["k"] in ("take", "cancel", "enter", "offer")]
+        return "late_admission" if not prev or prev[-1]["k"] != "cancel" else "not_admitted_after_cancel"
     return "other"
 
 
